@@ -44,7 +44,11 @@ RULES["C19"] = (
     "matrices for transform_points / transform_around, rotation points, plane origins) it ranges over every decade: "
     "scale factors 1e-9..1e9 (uniform and per-axis with ratio <= 100, both signs), lengths 1e-6..1e6, and every "
     "comparison is relative to the magnitude of the block it concerns. Every call is made with the caller's ndarrays "
-    "watched: arguments must come back bit-identical and results must not alias them. Round trips are compared as matrices. "
+    "watched: arguments must come back bit-identical and results must not alias them. 31 conversion entry points are also "
+    "called with the same exactly representable values (24 signed permutation rotations, integer translations / points / "
+    "scales / quaternions, fractional points where legal) in other argument forms - int64, int32, nested int lists, tuples, "
+    "float32, read-only, Fortran-ordered, strided arrays, integer scalars; one argument at a time and all together - and "
+    "must return the float64 answer as float64. Round trips are compared as matrices. "
     "Non-trivial: the rotation / transform of the case is not the identity (angle > 1e-13 or non-identity matrix)."
 )
 ASSUMPTIONS["C19"] = [
@@ -55,6 +59,7 @@ ASSUMPTIONS["C19"] = [
     "is_rigid is not asserted on reflections (orthogonal, det -1); fix_rigid is checked for (4,4) and (3,3) ndarray input",
     "transform_points is checked for affine matrices (last row 0..0 1); inside the documented 1e-8 identity shortcut both the unchanged points and the exact product are accepted",
     "scale_from_matrix: a uniform scaling stores the factor itself (relative precision expected), a directional one stores I+(f-1)dd^T (absolute precision eps*max(1,|f|) expected); the recovered origin may be any point of the fixed set",
+    "argument forms: an angle handed over as float32 is evaluated by numpy in float32, so only float32 accuracy (16 eps32) is demanded there; fix_rigid is given ndarrays only (it reads matrix.shape) and may return its argument",
     "decompose_matrix is checked for perspective-free matrices; factor equality only for canonical factors (scales of one sign, |aj| < pi/2, ai, ak in (-pi, pi])",
 ]
 
